@@ -196,7 +196,8 @@ namespace
     VF_CHECK(y.get_num_nodes_image() == g.get_num_nodes_image(), "image node count " << y.get_num_nodes_image() << " vs " << g.get_num_nodes_image());
     VF_CHECK(y.get_num_indices() == g.get_num_indices(), "index count " << y.get_num_indices() << " vs " << g.get_num_indices());
     VF_CHECK((kind == 2 ? Index(0) : y.get_num_nodes_domain()) == (kind == 2 ? Index(0) : g.get_num_nodes_domain()), "domain node count " << y.get_num_nodes_domain() << " vs " << g.get_num_nodes_domain());
-    for(int i = 0; i <= nd && kind == 0; ++i) VF_CHECK(y.get_domain_ptr()[i] == ptr[(size_t)i], "domain_ptr[" << i << "]");
+    // a graph without domain nodes may or may not carry the single 0 of its pointer array: compared only for nd >= 1
+    for(int i = 0; i <= nd && kind == 0 && nd > 0; ++i) VF_CHECK(y.get_domain_ptr()[i] == ptr[(size_t)i], "domain_ptr[" << i << "]");
     for(size_t k = 0; k < idx.size(); ++k) VF_CHECK(y.get_image_idx()[k] == idx[k], "image_idx[" << k << "]");
     std::vector<char> w2 = y.serialize();
     VF_CHECK(w1 == w2, "second serialisation differs (" << w1.size() << " vs " << w2.size() << " bytes)");
